@@ -17,22 +17,20 @@
 From Coq Require Import List Bool Arith NArith.
 Import ListNotations.
 From EV Require Import C03.Syntax C03.Spec C03.Model C03.Proofs C03.Corr Gen.C03_Ops Gen.C02_Graph.
-From EV Require C03.LexModel C03.LexSpec C03.LexProofs.
+From EV Require C03.LexModel C03.LexSpec C03.LexProofs C03.GenProofs C03.Facts.
 
 (** table obligation: left/right priorities, the unary priority and the token -> operator maps of
     kind/lua_operator_kind.rs and kind/mod.rs against the manual's table (Spec.v, §3.4.8) *)
 Theorem ops_table_matches_manual :
   table_ok gen_binop_of gen_unop_of gen_left gen_right gen_unary_priority = true.
-Proof. vm_compute. reflexivity. Qed.
+Proof. exact GenProofs.ops_table_matches_manual. Qed.
 
 (** every token list derivable as a Lua expression is accepted without error, and the tree is the
     grammar's tree *)
 Theorem expr_complete : forall (lv : level) (d : nat) (ts : list tok) (t : tree),
   E (gen_features lv) 1 d ts t -> d <= LIMIT ->
   exists n, forall fuel, n <= fuel -> gen_expr lv fuel ts = Ok t [].
-Proof.
-  intros lv d ts t. exact (Proofs.expr_complete _ _ _ _ _ (gen_features lv) LIMIT ops_table_matches_manual d ts t).
-Qed.
+Proof. exact GenProofs.expr_complete. Qed.
 
 (** ... also in the middle of a text, whatever follows that cannot continue an expression *)
 Theorem expr_complete_rest : forall (lv : level) (d : nat) (ts : list tok) (t : tree) (rest : list tok) (lvl : nat),
@@ -41,26 +39,18 @@ Theorem expr_complete_rest : forall (lv : level) (d : nat) (ts : list tok) (t : 
   exists n, forall fuel, n <= fuel ->
     Model.sub_expr gen_binop_of gen_unop_of gen_left gen_right gen_unary_priority (gen_features lv) LIMIT fuel lvl 0 (ts ++ rest)
     = Ok t rest.
-Proof.
-  intros lv d ts t rest lvl.
-  exact (Proofs.expr_complete_rest _ _ _ _ _ (gen_features lv) LIMIT ops_table_matches_manual d ts t rest lvl).
-Qed.
+Proof. exact GenProofs.expr_complete_rest. Qed.
 
 (** every chunk (all statement forms of Lua 5.1 - 5.4) is accepted without error *)
 Theorem chunk_complete : forall (lv : level) (d : nat) (ts : list tok) (t : tree),
   ChunkR (gen_features lv) d ts t -> d <= LIMIT ->
   exists n, forall fuel, n <= fuel -> gen_chunk lv fuel ts = Ok t [].
-Proof.
-  intros lv d ts t. exact (Proofs.chunk_complete _ _ _ _ _ (gen_features lv) LIMIT ops_table_matches_manual d ts t).
-Qed.
+Proof. exact GenProofs.chunk_complete. Qed.
 
 (** the lexical constants of today's source are the ones the lexical theorems are about *)
 Theorem lexical_constants :
   (forall c, gen_zsp c = LexModel.lexer_zsp_fixed c) /\ gen_umax = LexModel.lua54_umax.
-Proof.
-  split; [|reflexivity]. intros c. unfold gen_zsp, gen_zsp_chars, LexModel.lexer_zsp_fixed, LexModel.lexer_zsp.
-  cbn [existsb]. destruct (N.eqb c 32), (N.eqb c 9), (N.eqb c 13), (N.eqb c 10), (N.eqb c 11), (N.eqb c 12); reflexivity.
-Qed.
+Proof. exact GenProofs.lexical_constants. Qed.
 
 (** every numeral of the manual is one TkInt / TkFloat token, no lexer error, no checker error *)
 Theorem number_complete :
@@ -96,7 +86,7 @@ Proof. exact LexProofs.string_z_vtab_refuted. Qed.
 (* ------------------------------------------------------------------------------------------ *)
 (** non-vacuity: derivations of  2 ^ - 3 ^ 2 ,  1 + 2 * 3 .. 4  and of a small chunk, and what the model
     computes on them *)
-Definition lit := N KLiteral [L TInt].
+Definition lit := GenProofs.lit.
 
 Example precedence_example :
   (* 2 ^ - 3 ^ 2  =  2 ^ (- (3 ^ 2)) *)
@@ -115,7 +105,7 @@ Example precedence_example :
   (* a chunk: local x <const> = f(1) ; return x  — attribs need 5.4 *)
   /\ (exists t, gen_chunk Lua54 100 [TLocal; TName; TLt; TName; TGt; TAssign; TName; TLParen; TInt; TRParen; TSemi; TReturn; TName] = Ok t [])
   /\ gen_chunk Lua53 100 [TLocal; TName; TLt; TName; TGt; TAssign; TInt] = Err.
-Proof. vm_compute. repeat split; try reflexivity. eexists. reflexivity. Qed.
+Proof. exact GenProofs.precedence_example. Qed.
 
 Example derivation_example : forall lv, E (gen_features lv) 1 2 [TInt; TPlus; TInt; TPlus; TInt] (Proofs.plus_tree 2).
-Proof. intros lv. exact (Proofs.plus_chain_E (gen_features lv) 2). Qed.
+Proof. exact GenProofs.derivation_example. Qed.
